@@ -91,7 +91,7 @@ def main(tier):
     broken = ck.stage_a(errs, ["GenNum.v"], "TieC02.v", "C02.v", tie_text=ties.tie_text("C02"))
     gen_ok = not any(o[0].startswith("compile:") for o in broken)
     rng = ck.rng
-    shapes = [([8], 0), ([4, 6], 0), ([4, 6], -1), ([6, 8], 0), ([8, 6], -1), ([3, 2, 4], 0), ([3, 2, 4], -1), ([2, 3, 2, 2], 0), ([2, 2, 3, 2], -1), ([2, 16], 0), ([16, 2], -1)]
+    shapes = [([8], 0), ([4, 6], 0), ([4, 6], -1), ([6, 8], 0), ([8, 6], -1), ([3, 2, 4], 0), ([3, 2, 4], -1), ([2, 3, 2, 2], 0), ([2, 2, 3, 2], -1), ([2, 16], 0), ([16, 2], -1), ([8, 4], -1), ([4, 2], -1), ([6, 3], -1), ([12, 4], -1)]
     ncase = 90 if tier == "quick" else 900
     calls = []
     for i in range(ncase):
